@@ -102,3 +102,34 @@ def refval(q) -> Fraction:
 def is_exact(x) -> bool:
     from decimalfp import Decimal
     return isinstance(x, (Decimal, Fraction)) and not isinstance(x, float)
+
+
+def den(unit):
+    """denotation of a unit as a term element: (numeric factor, {base unit
+    symbol: exponent}), by an independent walk over the definitions"""
+    d = unit._definition
+    if d is None:
+        return Fraction(1), {unit._symbol: 1}
+    num = Fraction(1)
+    vec = {}
+    for elem, exp in d._items:
+        if hasattr(elem, "_definition") and hasattr(elem, "_symbol"):
+            n, v = den(elem)
+            num *= n ** exp
+            for k, e in v.items():
+                vec[k] = vec.get(k, 0) + e * exp
+        else:
+            num *= F(elem) ** exp
+    return num, {k: e for k, e in vec.items() if e != 0}
+
+
+def vec_op(v1, v2, sign):
+    out = dict(v1)
+    for k, e in v2.items():
+        out[k] = out.get(k, 0) + sign * e
+    return {k: e for k, e in out.items() if e != 0}
+
+
+def all_units():
+    import quantity
+    return list(quantity._SYMBOL_UNIT_MAP.values())
